@@ -7,7 +7,8 @@ Proved end to end: `qubit_sparse_sound` (Kronecker chains, the swapped `(column,
 coordinate extraction — right because Pauli-string chains have a symmetric sparsity pattern and no
 explicit zeros —, duplicate summation), `jw_sparse_sound`, `matvec_*`, `diagonal_sound`,
 `parallel_*`.  Not proved (see OPEN_STATEMENTS in harness/c06.py): truncated boson / quadrature
-matrices (partial) and eigenspectrum (numeric correspondence); `expectation` / `variance` are proved for
+matrices (per column incl. the cut-off and the index arithmetic; the float sum over terms with square
+roots and the QuadOperator route are numeric) and eigenspectrum (numeric correspondence); `expectation` / `variance` are proved for
 the Model's sparse-matrix form (`expectation_*`, `variance_*`).
 -/
 import OFV.Model.C06
@@ -20,6 +21,7 @@ import OFV.Proofs.C06Ladder
 import OFV.Proofs.C06JW
 import OFV.Proofs.C06Assembly
 import OFV.Proofs.C06Boson
+import OFV.Proofs.C06BosonCut
 import OFV.Model.C06Expect
 import OFV.Proofs.C06Expect
 
@@ -347,6 +349,51 @@ example : bosonTermColumn 4 1 [(0, 1), (0, 1), (0, 0)] 2 = some (3, 12) ∧
     2 * 2 * Proofs.C06B.wfact [3] = 12 * Proofs.C06B.wfact [2] := by
   refine ⟨by decide, by decide +kernel, by decide⟩
 
+/-- **`boson_column_sound`** — cut-off and index arithmetic included.  `boson_ladder_sparse(…, trunc)` is
+`P b† P` resp. `P b P` with `P` the projector on occupations `< trunc`; on the polynomial representation
+this is `Proofs.C06B.actBT trunc` (creation into occupation `≥ trunc` gives 0, otherwise `Spec.actB`).
+For every ladder word `t` on modes `< nModes`, every column index `col` (its occupation numbers are the
+big-endian base-`trunc` digits) and the monomial `e0` with those exponents:
+* the Model's column is empty exactly when the truncated Spec word vanishes on `x^{e0}` (lowering an
+  empty mode or hitting the cut-off anywhere inside the word);
+* otherwise the entry `(row, √R)` has `row < trunc^nModes`, the digits of `row` are the exponents the
+  truncated Spec word reaches, and its integer coefficient `K` satisfies
+  `K² · Π n_row! = R · Π n_col!` (conjugation by `diag(√n!)`, stated without square roots). -/
+theorem boson_column_sound (trunc nModes : Nat) (h0 : 0 < trunc) (t : List (Nat × Nat))
+    (ht : ∀ f ∈ t, f.1 < nModes ∧ f.2 ≤ 1) (col : Nat) (e0 : Spec.Mono)
+    (hagree : ∀ m, Spec.expGet e0 m = (digitsOf trunc nModes col).getD m 0) :
+    (bosonTermColumn trunc nModes t col = none ↔
+      Spec.actTermWith (Proofs.C06B.actBT trunc) t e0 = none) ∧
+    ∀ row R, bosonTermColumn trunc nModes t col = some (row, R) →
+      row < trunc ^ nModes ∧
+      ∃ (K : Nat) (e : Spec.Mono),
+        Spec.actTermWith (Proofs.C06B.actBT trunc) t e0 = some (GQ.ofInt K, e) ∧
+        (∀ m, Spec.expGet e m = (digitsOf trunc nModes row).getD m 0) ∧
+        K * K * Proofs.C06B.wfact (digitsOf trunc nModes row) =
+          R * Proofs.C06B.wfact (digitsOf trunc nModes col) :=
+  Proofs.C06B.bosonTermColumn_sound trunc nModes h0 t ht col e0 hagree
+
+/-- a defined truncated word is the untruncated Spec word (truncation only removes terms) -/
+theorem boson_truncation_restricts (trunc : Nat) (t : List (Nat × Nat)) (e : Spec.Mono) (r : GQ × Spec.Mono)
+    (h : Spec.actTermWith (Proofs.C06B.actBT trunc) t e = some r) : Spec.actTermWith Spec.actB t e = some r :=
+  Proofs.C06B.actBT_le trunc t e r h
+
+/-- **`boson_index_bijection`**: the big-endian base-`trunc` digits (`mode 0` most significant) are a
+bijection between the matrix indices `< trunc^nModes` and the occupation vectors with all entries
+`< trunc`. -/
+theorem boson_index_bijection (trunc nModes : Nat) (h0 : 0 < trunc) :
+    (∀ idx, idx < trunc ^ nModes →
+      indexOf trunc (digitsOf trunc nModes idx) = idx ∧ (digitsOf trunc nModes idx).length = nModes ∧
+        ∀ d ∈ digitsOf trunc nModes idx, d < trunc) ∧
+    (∀ ds : List Nat, ds.length = nModes → (∀ d ∈ ds, d < trunc) →
+      digitsOf trunc nModes (indexOf trunc ds) = ds ∧ indexOf trunc ds < trunc ^ nModes) :=
+  ⟨fun idx h => ⟨Proofs.C06B.indexOf_digitsOf trunc h0 nModes idx h, Proofs.C06B.digitsOf_length _ _ _,
+      Proofs.C06B.digitsOf_lt trunc h0 nModes idx⟩,
+   fun ds hl hd => Proofs.C06B.digitsOf_indexOf trunc h0 nModes ds hl hd⟩
+
+example : bosonTermColumn 3 2 [(0, 1), (1, 0)] 5 = some (7, 4) ∧ bosonTermColumn 3 2 [(0, 1)] 7 = none ∧
+    digitsOf 3 2 5 = [1, 2] ∧ digitsOf 3 2 7 = [2, 1] := by decide
+
 /-! ### `expectation`, `variance` (glue over scipy / numpy) -/
 
 /-- `Σ_{k < N} f k` -/
@@ -398,5 +445,28 @@ example :
     vdotc (sparseMatvec ⟨2, 2, [(0, 1, 1)]⟩ [0, 1]) (sparseMatvec ⟨2, 2, [(0, 1, 1)]⟩ [0, 1]) = 1 ∧
     varianceVec ⟨2, 2, [(0, 1, 1)]⟩ [0, 1] = 0 := by
   refine ⟨by decide +kernel, by decide +kernel, by decide +kernel⟩
+
+/-! ### `is_hermitian(sparse matrix)` and the routine chosen by `sparse_eigenspectrum` -/
+
+/-- **`is_hermitian_sparse_sound`**: for a tolerance `> 0`, `is_hermitian(M)` on a sparse matrix answers
+`True` exactly when EVERY entry of `M - M†` (diagonal included, both triangles) is smaller than the
+tolerance (`|d|² < tol²`); entries at positions stored neither in `M` nor in `M†` are zero. -/
+theorem is_hermitian_sparse_sound (tol : Rat) (htol : 0 < tol) (M : Mat) :
+    isHermitianMat tol M = true ↔ ∀ r c, GQ.normSq (M.get r c - GQ.conj (M.get c r)) < tol * tol :=
+  isHermitianMat_iff tol htol M
+
+/-- in the exact regime (every non-zero entry of `M - M†` is at least the tolerance) the answer is `True`
+iff `M[r,c] = conj M[c,r]` for all `r, c`; in particular `sparse_eigenspectrum` hands the matrix to
+`numpy.linalg.eigvalsh` exactly for the Hermitian matrices and to `numpy.linalg.eigvals` otherwise
+(the eigenvalue routines themselves are LAPACK and stay numeric). -/
+theorem eigenspectrum_route_sound (tol : Rat) (htol : 0 < tol) (M : Mat)
+    (hgap : ∀ r c, M.get r c ≠ GQ.conj (M.get c r) → tol * tol ≤ GQ.normSq (M.get r c - GQ.conj (M.get c r))) :
+    eigenspectrumUsesEigvalsh tol M = true ↔ ∀ r c, M.get r c = GQ.conj (M.get c r) :=
+  isHermitianMat_exact tol htol M hgap
+
+/-- a matrix that is non-Hermitian only through its diagonal (`i·Z`) is rejected -/
+example : isHermitianMat GQ.eqTol ⟨2, 2, [(0, 0, GQ.I), (1, 1, -GQ.I)]⟩ = false ∧
+    isHermitianMat GQ.eqTol ⟨2, 2, [(0, 1, GQ.I), (1, 0, -GQ.I)]⟩ = true := by
+  refine ⟨by decide +kernel, by decide +kernel⟩
 
 end OFV.C06
